@@ -1370,8 +1370,12 @@ func (enc *VP8Encoder) EncodeFrame() ([]byte, error) {
 		if !doSearch {
 			break // quality mode: single pass
 		}
-		// Rate control: check if we hit the target.
-		if enc.adjustQuantForTarget() {
+		// Rate control: check if we hit the target. After the last pass the
+		// quantizers must stay the ones the tokens were produced with:
+		// adjusting them now would make the frame header disagree with the
+		// coded coefficients (the decoder would dequantize with other values
+		// than the encoder reconstructed with).
+		if pass == maxPasses-1 || enc.adjustQuantForTarget() {
 			break
 		}
 	}
